@@ -50,6 +50,8 @@ func init() {
 		mutant{"transport EOF not surfaced as 1006", "codec/websocket/stream.go",
 			"\t\tf = NewFrame()\n\t\tf.SetFIN().SetClose().SetPayload(EncodeCloseFramePayload(CloseAbnormal, \"\"))\n\t}\n\n\tif err == nil {\n\t\terr = s.handleFrame(f)",
 			"\t\tf = NewFrame()\n\t\tf.SetFIN().SetClose().SetPayload(EncodeCloseFramePayload(CloseNormal, \"\"))\n\t}\n\n\tif err == nil {\n\t\terr = s.handleFrame(f)", "C08-R5"},
+		mutant{"EOF after a local close not surfaced (async)", "codec/websocket/stream.go",
+			"\t\t} else if s.state != StateTerminated && err == io.EOF {", "\t\t} else if s.state == StateActive && err == io.EOF {", "C08-R5"},
 		mutant{"async flush sends the newest frame first", "codec/websocket/stream.go",
 			"\t\tsent := s.pendingFrames[0]\n\t\ts.pendingFrames = s.pendingFrames[1:]", "\t\tsent := s.pendingFrames[len(s.pendingFrames)-1]\n\t\ts.pendingFrames = s.pendingFrames[:len(s.pendingFrames)-1]", "C08-R5"},
 		mutant{"close ack accepted from the active state", "codec/websocket/stream.go",
@@ -501,6 +503,9 @@ func runC08(c *Ctx) {
 				}
 				found = true
 				c.check(has1006, fn, "transport EOF", st.Pos(), "EOF terminates the stream and yields a Close frame with status 1006", "on transport EOF the frame handed to the reader is not a Close frame built from CloseAbnormal (1006)")
+				// the branch must be taken in every state in which frames are read (Active and ClosedByUs)
+				al := allowedStates(st.Block(), w.state, nStates)
+				c.check(al[w.stActive] && al[w.stByUs], fn, "transport EOF states", st.Pos(), "taken from every state in which reads are allowed", "transport EOF is surfaced as an abnormal closure only in states "+w.names(al)+": after a local Close (ClosedByUs) an EOF before the peer's reply leaves the stream half-closed forever and hands the reader a nil frame")
 			}
 			if !found {
 				c.bad(fn, "transport EOF", fn.Pos(), "transport EOF no longer moves the stream to StateTerminated")
